@@ -20,6 +20,7 @@ import ast
 import re
 from ..model import AnalysisError, walk_no_nested, norm, dotted, parent
 from ..fmt import Evaluator, template_text, arg_text
+from ..symx import canon_k
 from ..cli import registered_options, analyse_reader, paired_options, reader_load_class_order, INF
 from ..rules import loops_in, loop_reaches_on_all_paths
 
@@ -59,37 +60,95 @@ def field_count_range(fields):
     return mn, mx
 
 
+def writer_paths(ctx, f, wq):
+    from ..symx import SymExec
+    cache = ctx.__dict__.setdefault('_c15_paths', {})
+    if f.qual not in cache:
+        cache[f.qual] = [p_ for p_ in SymExec(ctx, f, bind_loops=True, no_expand=wq - {f.qual}, max_paths=50000).run()
+                         if p_.end != 'raise']
+    return cache[f.qual]
+
+
+def path_lines(ev, p_):
+    """[(line template, node)] written on the symbolic path p_ (closed expressions -> templates)"""
+    from ..symx import line_exprs
+    from ..fmt import split_lines
+    out = []
+    for e_, st_, it_ in line_exprs(p_, with_iter=True):
+        t = ev.template(e_, {})
+        for (t2, rep) in split_lines(t):
+            out.append((t2, st_ if st_ is not None else e_))
+    return out
+
+
 def writer_table(ctx):
-    """[(func, option string, fields, conds, in_loop, node, path conds, template)]"""
+    """[(func, option string, fields, conds, in_loop, node, path conds, template)]
+    The lines are taken from the symbolic walk of every writer: each is one closed expression
+    (temporaries, literal loops, local and private helpers resolved) turned into a template."""
     rows = []
     unresolved = []
     m = ctx.model
     funcs = [f for f in m.all_funcs() if f.name.startswith('as_cmdline')]
+    wq = {f.qual for f in funcs}
     for f in sorted(funcs, key=lambda x: x.qual):
-        ev = Evaluator(f, ctx)
+        ev = Evaluator(f)
         seen = set()
-        for (t, conds, il, node, pconds) in ev.emissions():
-            txt = template_text(t)
-            k = (txt, conds, tuple(arg_text(p[2]) for p in t if p[0] == 'conv'))
-            if k in seen or txt == '':
-                continue
-            seen.add(k)
-            # option name
-            if t and t[0][0] == 'lit':
-                mo = OPT_RE.match(t[0][1])
-                if mo:
-                    name = mo.group(1)
-                    rest = [('lit', t[0][1][mo.end():])] + list(t[1:])
-                    rows.append((f, name, split_fields(rest), conds, il, node, pconds, t))
+        for p_ in writer_paths(ctx, f, wq):
+            for (t, node) in path_lines(ev, p_):
+                txt = template_text(t)
+                k = (txt, tuple(arg_text(p[2]) for p in t if p[0] == 'conv'))
+                if k in seen or txt == '':
                     continue
-                if t[0][1].startswith('--') and len(t) > 1 and t[1][0] == 'conv':
-                    # option name built with a conversion: --geo-%s=
-                    rows.append((f, t[0][1] + '%s', None, conds, il, node, pconds, t))
-                    continue
-            if all(p[0] == 'unk' for p in t):
-                continue        # nested writer call, analysed as its own writer
-            unresolved.append((f, txt, node))
+                seen.add(k)
+                conds = il = pconds = None
+                # option name
+                if t and t[0][0] == 'lit':
+                    mo = OPT_RE.match(t[0][1])
+                    if mo:
+                        name = mo.group(1)
+                        rest = [('lit', t[0][1][mo.end():])] + list(t[1:])
+                        rows.append((f, name, split_fields(rest), conds, il, node, pconds, t))
+                        continue
+                    if t[0][1].startswith('--') and len(t) > 1 and t[1][0] == 'conv':
+                        # option name built with a conversion: --geo-%s=
+                        rows.append((f, t[0][1] + '%s', None, conds, il, node, pconds, t))
+                        continue
+                if all(p[0] == 'unk' for p in t):
+                    continue        # nested writer call, analysed as its own writer
+                unresolved.append((f, txt, node))
     return rows, unresolved
+
+
+_RECORDS = {}
+
+
+def record_fields(ctx, cls, attr):
+    """{index: set of texts} of the tuples appended to self.<attr> anywhere in class cls"""
+    key = (cls.name, attr)
+    if key not in _RECORDS:
+        out = {}
+        for g in cls.methods.values():
+            for c in walk_no_nested(g.node):
+                if isinstance(c, ast.Call) and isinstance(c.func, ast.Attribute) and c.func.attr == 'append' \
+                   and norm(c.func.value) == 'self.' + attr and len(c.args) == 1 and isinstance(c.args[0], ast.Tuple):
+                    for i, e in enumerate(c.args[0].elts):
+                        out.setdefault(i, set()).add(norm(e))
+        _RECORDS[key] = out
+    return _RECORDS[key]
+
+
+def resolve_record_arg(ctx, f, argtxt):
+    """`self.<list>[_kN][i]` (element i of a record of a list kept by the class) -> the text that
+    the append sites put at position i, when they all agree"""
+    if argtxt is None or f.cls is None:
+        return argtxt
+    mo = re.match(r'^self\.(\w+)\[_k\d+\]\[(\d+)\]$', argtxt)
+    if not mo:
+        return argtxt
+    rec = record_fields(ctx, f.cls, mo.group(1)).get(int(mo.group(2)))
+    if rec and len(rec) == 1:
+        return sorted(rec)[0]
+    return argtxt
 
 
 def tag_kind(argtxt):
@@ -211,11 +270,12 @@ def run(ctx, ck):
                 ob_once('R-WR.conversion', key_of(f, name, 'complex'), okc, f.loc(node), why)
             elif want == 'int' and convs:
                 c = convs[0]
-                okc = c[1][-1] in 'di' or (c[1][-1] == 's' and tag_kind(arg_text(c[2])) in ('tag', 'position'))
-                if c[1][-1] == 's' and arg_text(c[2]) in ('tag',):
+                at_ = resolve_record_arg(ctx, f, arg_text(c[2]))
+                okc = c[1][-1] in 'di' or (c[1][-1] == 's' and tag_kind(at_) in ('tag', 'position'))
+                if c[1][-1] == 's' and at_ in ('tag',):
                     okc = True
-                ob_once('R-WR.conversion', key_of(f, name, 'int-field%d<-%s' % (i, arg_text(c[2]))), okc, f.loc(node),
-                      'field %d read with int(), written with %s of %s' % (i, c[1], arg_text(c[2])))
+                ob_once('R-WR.conversion', key_of(f, name, 'int-field%d<-%s' % (i, canon_k(at_ or ''))), okc, f.loc(node),
+                      'field %d read with int(), written with %s of %s' % (i, c[1], at_))
         # tag fields
         for tf in o.tag_fields:
             idx = None
@@ -235,9 +295,9 @@ def run(ctx, ck):
             convs = [p for p in fields[idx] if p[0] == 'conv']
             if not convs:
                 continue
-            at = arg_text(convs[0][2])
+            at = resolve_record_arg(ctx, f, arg_text(convs[0][2]))
             kind = tag_kind(at)
-            ob_once('R-KIND.tag-field', key_of(f, name, 'field%d<-%s' % (idx, at)), kind == 'tag', f.loc(node),
+            ob_once('R-KIND.tag-field', key_of(f, name, 'field%d<-%s' % (idx, canon_k(at or ''))), kind == 'tag', f.loc(node),
                   'field %d of %s is resolved through by_tag by the reader and written from %s (%s)'
                   % (idx, name, at, kind))
 
@@ -248,16 +308,18 @@ def run(ctx, ck):
         oa, ob = by_dest[da], by_dest[db]
         sa = [s for s in oa.strings if s.startswith('--')][0]
         sb = [s for s in ob.strings if s.startswith('--')][0]
+        wq_ = {g_.qual for g_ in m.all_funcs() if g_.name.startswith('as_cmdline')}
         for f in sorted({r[0] for r in rows if r[1] in (sa, sb)}, key=lambda x: x.qual):
-            ev = Evaluator(f, ctx)
-            em = ev.emissions()
+            ev = Evaluator(f)
             paths = {}
-            for (t, conds, il, node, pconds) in em:
-                txt = template_text(t)
+            for p_ in writer_paths(ctx, f, wq_):
+                pconds = tuple(c_ for c_ in p_.conds if isinstance(c_[1], bool))
                 paths.setdefault(pconds, set())
-                for s in (sa, sb):
-                    if txt.startswith(s):
-                        paths[pconds].add(s)
+                for (t, node) in path_lines(ev, p_):
+                    txt = template_text(t)
+                    for s in (sa, sb):
+                        if txt.startswith(s):
+                            paths[pconds].add(s)
             # parameters that the caller sets to "more than one element in the zipped list"
             # (e.g. explicit = len(self.sources) > 1): the pairing matters exactly then, because
             # with a single element the reader's defaults fill in the missing partner
@@ -265,10 +327,13 @@ def run(ctx, ck):
             for q2, es in prog.edges.items():
                 for e in es:
                     if e.callee is f and isinstance(e.node, ast.Call):
+                        cfl = ctx.flow(m.funcs[q2])
                         for kw in e.node.keywords:
-                            if isinstance(kw.value, ast.Compare) and 'len(' in norm(kw.value) and \
-                               isinstance(kw.value.ops[0], (ast.Gt, ast.GtE, ast.NotEq)):
+                            v_ = cfl.inline(kw.value, cfl.node_id_of(e.node), depth=2)
+                            if isinstance(v_, ast.Compare) and 'len(' in norm(v_) and \
+                               isinstance(v_.ops[0], (ast.Gt, ast.GtE, ast.NotEq)):
                                 force.add(kw.arg)
+
             def infeasible(pc):
                 # path conditions are atoms: `a or explicit` being false gives (explicit, False)
                 return any(isinstance(b, bool) and b is False and t in force for t, b in pc)
@@ -285,40 +350,59 @@ def run(ctx, ck):
 
     # ---------------------------------------------------------------- D4 writer loops
     w = m.func('mininec.Mininec.as_cmdline')
-    wfl = ctx.flow(w)
-    want_loops = {'self.sources': 'as_cmdline', 'self.media or ()': 'as_cmdline', 'self.loads': 'as_cmdline'}
+    # symbolic walk (loops entered once, loop variable = element, private helpers expanded):
+    # on every path each element of the collection reaches its own as_cmdline() exactly once
+    from ..symx import SymExec, line_exprs
+    wq = {g_.qual for g_ in m.all_funcs() if g_.name.startswith('as_cmdline')}
+    wpaths = writer_paths(ctx, w, wq)
+    ck.info('symbolic_paths_as_cmdline', len(wpaths))
     found = 0
-    for l in loops_in(w.node):
-        if not isinstance(l, ast.For):
-            continue
-        it = norm(l.iter)
-        if it not in want_loops:
-            continue
-        found += 1
-        lv = l.target.id if isinstance(l.target, ast.Name) else '?'
 
-        def is_write(n, lv=lv):
-            if n.stmt is None or n.kind != 'stmt':
-                return False
-            return any(isinstance(c, ast.Call) and isinstance(c.func, ast.Attribute) and
-                       c.func.attr == 'as_cmdline' and norm(c.func.value) == lv for c in ast.walk(n.stmt))
-        mn, mx = loop_reaches_on_all_paths(wfl, l, is_write)
-        ok = (mn, mx) == (1, 1)
-        why = 'writer reached on every path (%s)' % it
-        if not ok:
-            # accepted idiom: skip an all-wires distributed load that is already written
-            skips = [n for n in walk_no_nested(l) if isinstance(n, ast.Continue)]
-            guards = []
-            for sk in skips:
-                p = parent(sk)
-                if isinstance(p, ast.If):
-                    guards.append(norm(p.test))
-            okskip = bool(guards) and all('all_wires' in g for g in guards) and mx == 1
-            ok = okskip
-            why = ('a load is skipped under `%s`: only an untagged (all-wires) line covers the other '
-                   'objects; per-tag loads of the same class are dropped from the file' % guards) \
-                if not okskip else 'only all-wires duplicates are skipped (%s)' % guards
-        ck.ob('R-EXH.writer-loops', '%s|for %s' % (w.qual, it), ok, w.loc(l), why)
+    def strip_it(t_):
+        return re.sub(r' or \(\)$', '', t_)
+    for coll in ('self.sources', 'self.media', 'self.loads'):
+        bad = None
+        n_ent = 0
+        skips = set()
+        for p_ in wpaths:
+            ent = [t_ for k_, t_ in p_.conds if k_ == 'loop' and strip_it(t_) == coll]
+            skp = [t_ for k_, t_ in p_.conds if k_ == 'loop-skipped' and strip_it(t_) == coll]
+            lines = line_exprs(p_, with_iter=True)
+            comp = [it_ for e_, st_, it_ in lines if it_ is not None and strip_it(norm(it_)) == coll]
+            if ent and skp:
+                continue
+            n_ = 0
+            for e_, st_, it_ in lines:
+                for c_ in ast.walk(e_):
+                    if isinstance(c_, ast.Call) and isinstance(c_.func, ast.Attribute) and c_.func.attr == 'as_cmdline' \
+                       and re.match(r'^%s\[_k\d+\]$' % re.escape(coll), norm(c_.func.value).replace('(%s or ())' % coll, coll)):
+                        n_ += 1
+            # `cm = x.as_cmdline(); if cm: r.append(cm)`: the writer ran and had nothing to write
+            if n_ == 0 and any(isinstance(b_, bool) and not b_ and re.match(
+                    r'^%s\[_k\d+\]\.as_cmdline\(' % re.escape(coll), t_) for t_, b_ in p_.conds):
+                n_ = 1
+            want_ = 1 if (ent or comp) else 0
+            n_ent += want_
+            if n_ == want_:
+                continue
+            if n_ == 0 and want_ == 1:
+                # accepted: an all-wires distributed load that is already written is not repeated
+                gd = [t_ for t_, b_ in p_.conds if isinstance(b_, bool) and b_ and 'all_wires' in t_]
+                if gd and coll == 'self.loads':
+                    skips.add(gd[0])
+                    continue
+                gd2 = [t_ for t_, b_ in p_.conds if isinstance(b_, bool) and coll + '[_k' in t_]
+                bad = bad or ('an element is skipped under %s' % gd2[-2:], p_)
+            else:
+                bad = bad or ('%d writer calls for one element' % n_, p_)
+        if n_ent:
+            found += 1
+        ok = bad is None and n_ent > 0
+        why = 'writer reached once per element on every path (%s)%s' % (coll, '; only all-wires duplicates are skipped (%s)' % sorted(skips)[0][:60] if skips else '')
+        if bad is not None:
+            why = ('%s: a load is skipped although no untagged (all-wires) line covers it; per-tag loads '
+                   'of the same class are dropped from the file' % bad[0]) if coll == 'self.loads' else bad[0]
+        ck.ob('R-EXH.writer-loops', '%s|for %s' % (w.qual, coll), ok, w.loc(), why)
     ck.floor('element loops in Mininec.as_cmdline', found, 3)
     gc = m.func('mininec.Geo_Container.as_cmdline')
     gfl = ctx.flow(gc)
@@ -343,7 +427,11 @@ def run(ctx, ck):
     order = reader_load_class_order(mainf)
     ck.info('reader_load_class_order', order)
     ck.floor('reader load classes', len(order), 4)
-    loads_loop = [l for l in loops_in(w.node) if isinstance(l, ast.For) and 'self.loads' in norm(l.iter)]
+    from ..rules import self_closure
+    loads_loop = [l for g_ in self_closure(ctx, w) if not g_.name.startswith('as_cmdline') or g_ is w
+                  for l in loops_in(g_.node) if isinstance(l, ast.For) and 'self.loads' in norm(l.iter)]
+    loads_loop += [c_ for g_ in self_closure(ctx, w) if not g_.name.startswith('as_cmdline') or g_ is w
+                   for c_ in ast.walk(g_.node) if isinstance(c_, ast.comprehension) and 'self.loads' in norm(c_.iter)]
     rl = m.func('mininec.Mininec.register_load')
     nw = sorted({norm(s.value) for s in walk_no_nested(rl.node) if isinstance(s, ast.Assign) and
                  norm(s.targets[0]) == 'load.n'})
@@ -352,7 +440,7 @@ def run(ctx, ck):
                  for x in ast.walk(att.node))
     plain = bool(loads_loop) and norm(loads_loop[0].iter) == 'self.loads'
     ok = not (plain and uses_n and nw == ['len(self.loads)'])
-    ck.ob('R-WR.load-numbering', '%s|definition-order' % w.qual, ok, w.loc(loads_loop[0] if loads_loop else None),
+    ck.ob('R-WR.load-numbering', '%s|definition-order' % w.qual, ok, w.loc(),
           'load definitions are written in attachment order (self.loads, numbered by first '
           'attachment) but the reader numbers them by class order %s: a Laplace-type load attached '
           'before a simple load is read back with the attachments swapped' % order if not ok else
